@@ -219,13 +219,8 @@ func runC16(r *rt.Run, tier string) {
 
 	nloads := 1 + t.Draw(3, "c16.loads")
 	accepted := 0
-	for li := 0; li < nloads; li++ {
-		verifyFirst := t.Bool(1, 2, "c16.verifyfirst")
-		disk := simdisk.New(r, "deb", img)
-		disk.DrawProfile()
-		disk.MaxCalls = 4*len(img) + 8000
-		var a c16Attempt
-		a.task = r.Solo("loader+verifier", func() {
+	mkAttempt := func(a *c16Attempt, verifyFirst bool, disk *simdisk.Disk) func() {
+		return func() {
 			d, err := deb.Load(disk, "signed.deb")
 			if err != nil {
 				a.loadErr = err
@@ -266,6 +261,12 @@ func runC16(r *rt.Run, tier string) {
 						}
 					}
 				}
+				// a role that is a proper prefix of the present one (or empty) is not present either
+				for _, ro := range []string{role[:len(role)-1], role[:1], "", role + "x"} {
+					if _, err := d.CheckDebsig(keyring, ro); err == nil {
+						a.seq = append(a.seq, fmt.Sprintf("CheckDebsig for the absent role %q succeeded (present: %q)", ro, role))
+					}
+				}
 				r.Probe("repeated-checks-on-one-package")
 			}
 			a.ctlDiff = controlDiff(&d.Control, &p.Ctl.Model)
@@ -273,7 +274,35 @@ func runC16(r *rt.Run, tier string) {
 				a.dataDiffS = dataDiff(files, p.Data.Files, false)
 			}
 			d.Close()
-		})
+		}
+	}
+	newDisk := func() *simdisk.Disk {
+		disk := simdisk.New(r, "deb", img)
+		disk.DrawProfile()
+		disk.MaxCalls = 4*len(img) + 8000
+		return disk
+	}
+	attempts := make([]c16Attempt, nloads)
+	firsts := make([]bool, nloads)
+	// genuine packages may be loaded and verified by concurrent tasks, interleaved
+	// at every disk read: several signed packages open at the same time
+	concurrent := fault == "none" && nloads > 1 && t.Bool(1, 2, "c16.concurrent")
+	if concurrent {
+		r.Probe("loads-interleaved")
+		r.Sticky = t.Draw(3, "sched.sticky")
+		for li := 0; li < nloads; li++ {
+			firsts[li] = t.Bool(1, 2, "c16.verifyfirst")
+			attempts[li].task = r.Go(fmt.Sprintf("LV%d", li), mkAttempt(&attempts[li], firsts[li], newDisk()))
+		}
+		r.Sched()
+	}
+	for li := 0; li < nloads; li++ {
+		if !concurrent {
+			firsts[li] = t.Bool(1, 2, "c16.verifyfirst")
+			attempts[li].task = r.Solo("loader+verifier", mkAttempt(&attempts[li], firsts[li], newDisk()))
+		}
+		a := attempts[li]
+		verifyFirst := firsts[li]
 		key := fault
 		if taskTrouble(r, "C16", key, a.task) {
 			return
@@ -326,5 +355,5 @@ func init() {
 		},
 		Assumptions: []string{"x/crypto/openpgp both makes and verifies the signatures: a bug common to both directions is invisible", "test keys are committed fixtures (key generation is not reproducible in Go); signing with a fixed signature time is byte-deterministic"},
 	})
-	propProbes["C16"] = []string{"repeated-checks-on-one-package", "verification-succeeded", "payload-read-after-verification", "decoy-with-identical-name"}
+	propProbes["C16"] = []string{"loads-interleaved", "repeated-checks-on-one-package", "verification-succeeded", "payload-read-after-verification", "decoy-with-identical-name"}
 }
